@@ -156,12 +156,13 @@ theorem pstep_no_esc_key (s : PState) (i : Inp) : Seq.c0 0x1B ∉ (pstep s i).ou
 
 /-- What holds of (system state, everything emitted so far). -/
 def EofInv (s : Sys) (out : List Seq) : Prop :=
-  (s.pc = .done → (∃ pre, out = pre ++ [.eof] ∧ Seq.eof ∉ pre) ∧ s.chanClosed = true) ∧
+  (s.pc = .done → (∃ pre, out = pre ++ [.eof] ∧ Seq.eof ∉ pre) ∧ s.chanClosed = true ∧
+      s.armed = false ∧ s.fresh = false) ∧
   (s.pc ≠ .done → Seq.eof ∉ out ∧ s.chanClosed = false)
 
 theorem finishing_inv (s : Sys) (ps : PState) (o acc : List Seq) (hacc : Seq.eof ∉ acc) (ho : Seq.eof ∉ o) :
     EofInv (finishing s ps o).1 (acc ++ (finishing s ps o).2) := by
-  refine ⟨fun _ => ⟨⟨acc ++ o, by simp [finishing], by simp [hacc, ho]⟩, rfl⟩, fun h => absurd rfl h⟩
+  refine ⟨fun _ => ⟨⟨acc ++ o, by simp [finishing], by simp [hacc, ho]⟩, rfl, rfl, rfl⟩, fun h => absurd rfl h⟩
 
 theorem finishing_inv' (s : Sys) (ps : PState) (o acc : List Seq) (s' : Sys) (o' : List Seq)
     (h : finishing s ps o = (s', o')) (hacc : Seq.eof ∉ acc) (ho : Seq.eof ∉ o) : EofInv s' (acc ++ o') := by
@@ -169,9 +170,10 @@ theorem finishing_inv' (s : Sys) (ps : PState) (o acc : List Seq) (s' : Sys) (o'
   rw [h] at this
   exact this
 
-theorem step_EofInv (T : Table) (c : Bool) (s : Sys) (acc : List Seq) (l : Label) (s' : Sys) (o : List Seq)
-    (hinv : EofInv s acc) (hstep : Sys.step T c s l = some (s', o)) : EofInv s' (acc ++ o) := by
-  have hne : ∀ r, Seq.eof ∉ (step T s.ps r).out := fun r => step_no_eof T s.ps r
+theorem step_EofInv (T : Table) (c : Cfg) (hg : c.guarded = true) (s : Sys) (acc : List Seq) (l : Label)
+    (s' : Sys) (o : List Seq) (hinv : EofInv s acc) (hstep : Sys.step T c s l = some (s', o)) :
+    EofInv s' (acc ++ o) := by
+  have hne : ∀ r, Seq.eof ∉ (VaxisModel.Model.Parser.step T s.ps r).out := fun r => step_no_eof T s.ps r
   cases l with
   | closeSig =>
     simp only [Sys.step, Option.some.injEq, Prod.mk.injEq] at hstep
@@ -225,31 +227,42 @@ theorem step_EofInv (T : Table) (c : Bool) (s : Sys) (acc : List Seq) (l : Label
       refine ⟨fun h => by simp [hc.2] at h, fun _ => ⟨?_, this.2⟩⟩
       simp [this.1]
     · cases hstep
-  | raceFire r late =>
+  | timerExpire =>
     simp only [Sys.step] at hstep
     split at hstep
     · rename_i hc
-      have := hinv.2 (by rw [hc.2]; decide)
-      have hne' : ∀ ps r, Seq.eof ∉ (step T ps r).out := fun ps r => step_no_eof T ps r
-      split at hstep
-      · split at hstep
-        · simp only [Option.some.injEq] at hstep
-          exact finishing_inv' s _ _ acc _ _ hstep this.1 (by simp [hne'])
-        · simp only [Option.some.injEq, Prod.mk.injEq] at hstep
-          obtain ⟨rfl, rfl⟩ := hstep
-          refine ⟨fun h => by simp at h, fun _ => ⟨?_, this.2⟩⟩
-          simp [this.1, hne']
-      · split at hstep
-        · simp only [Option.some.injEq] at hstep
-          exact finishing_inv' s _ _ acc _ _ hstep this.1 (by simp [hne'])
-        · simp only [Option.some.injEq, Prod.mk.injEq] at hstep
-          obtain ⟨rfl, rfl⟩ := hstep
-          refine ⟨fun h => by simp at h, fun _ => ⟨?_, this.2⟩⟩
-          simp [this.1, hne']
+      simp only [Option.some.injEq, Prod.mk.injEq] at hstep
+      obtain ⟨rfl, rfl⟩ := hstep
+      have hnd : s.pc ≠ .done := fun h => by have := (hinv.1 h).2.2.1; rw [hc] at this; cases this
+      have := hinv.2 hnd
+      exact ⟨fun h => absurd h hnd, fun _ => by simpa using this⟩
     · cases hstep
+  | cbRun fresh =>
+    cases fresh with
+    | true =>
+      simp only [Sys.step] at hstep
+      split at hstep
+      · rename_i hc
+        simp only [Option.some.injEq, Prod.mk.injEq] at hstep
+        obtain ⟨rfl, rfl⟩ := hstep
+        have hnd : s.pc ≠ .done := fun h => by have := (hinv.1 h).2.2.2; rw [hc] at this; cases this
+        have := hinv.2 hnd
+        refine ⟨fun h => absurd h hnd, fun _ => ⟨?_, this.2⟩⟩
+        simp only [hg, Bool.not_true, Bool.and_false, Bool.false_eq_true, if_false, List.mem_append,
+          List.mem_singleton, this.1, false_or]
+        intro h; cases h
+      · cases hstep
+    | false =>
+      simp only [Sys.step, hg, if_true] at hstep
+      split at hstep
+      · simp only [Option.some.injEq, Prod.mk.injEq] at hstep
+        obtain ⟨rfl, rfl⟩ := hstep
+        simpa [EofInv] using hinv
+      · cases hstep
 
-theorem run_EofInv (T : Table) (c : Bool) (ls : List Label) (s : Sys) (acc : List Seq) (s' : Sys) (o : List Seq)
-    (hinv : EofInv s acc) (hrun : Sys.run T c s ls = some (s', o)) : EofInv s' (acc ++ o) := by
+theorem run_EofInv (T : Table) (c : Cfg) (hg : c.guarded = true) (ls : List Label) (s : Sys) (acc : List Seq)
+    (s' : Sys) (o : List Seq) (hinv : EofInv s acc) (hrun : Sys.run T c s ls = some (s', o)) :
+    EofInv s' (acc ++ o) := by
   induction ls generalizing s acc o with
   | nil =>
     simp only [Sys.run, Option.some.injEq, Prod.mk.injEq] at hrun
@@ -268,7 +281,7 @@ theorem run_EofInv (T : Table) (c : Bool) (ls : List Label) (s : Sys) (acc : Lis
         obtain ⟨s2, o2⟩ := r2
         simp only [h2, Option.some.injEq, Prod.mk.injEq] at hrun
         obtain ⟨rfl, rfl⟩ := hrun
-        have := ih s1 (acc ++ o1) o2 (step_EofInv T c s acc l s1 o1 hinv h1) h2
+        have := ih s1 (acc ++ o1) o2 (step_EofInv T c hg s acc l s1 o1 hinv h1) h2
         simpa [List.append_assoc] using this
 
 /-! ### pools -/
@@ -299,21 +312,32 @@ theorem startsTimer_hand (r : Nat) : startsTimer handTable r = decide (r = 0x1B)
       · subst h1a; decide
       · simp [startsTimer, handTable, anywhere_plain r h18 h1a hr]
 
-/-- While the loop runs: the automaton invariant holds and the timer is only pending in `escape`. -/
+/-- While the loop runs: the automaton invariant holds; the timer is only pending, and a started
+    callback is only up to date, in the `escape` state reached by its ESC; not both at once. -/
 def SInv (s : Sys) : Prop :=
-  s.pc ≠ .done → (invB (α s.ps) = true ∧ (s.armed = true → s.ps.state = .escape))
+  s.pc ≠ .done → (invB (α s.ps) = true ∧ ((s.armed = true ∨ s.fresh = true) → s.ps.state = .escape) ∧
+    (s.armed = true → s.fresh = false))
 
 theorem SInv_init : SInv Sys.init := by
-  intro _; exact ⟨by decide, by simp [Sys.init]⟩
+  intro _; exact ⟨by decide, by simp [Sys.init], by simp [Sys.init]⟩
 
 theorem pstep_esc_state (ps : PState) : (pstep ps (.rune 0x1B)).st.state = .escape := by
   cases he : ps.exit with
   | none => rw [VaxisModel.Lemmas.Parser.pstep_esc ps he]
   | some f => rw [VaxisModel.Lemmas.Parser.pstep_esc_exit ps f he]
 
-/-- A race-free step preserves the invariant and emits no panic item. -/
-theorem step_SInv (s : Sys) (l : Label) (hl : l.isRace = false) (s' : Sys) (o : List Seq)
-    (hinv : SInv s) (hstep : Sys.step handTable true s l = some (s', o)) :
+theorem timerReset_inv (ps : PState) (hi : invB (α ps) = true) (hesc : ps.state = .escape) :
+    invB (α (timerReset true ps)) = true := by
+  have hex := ((invB_spec _).mp hi).1
+  simp only [α, hesc] at hex
+  simp only [timerReset, α, invB, if_true]
+  rw [hex]
+  decide
+
+/-- Every step — including the delayed-callback interleavings — preserves the invariant and emits
+    no panic item (the callback as it is now: `Cfg.fixed`). -/
+theorem step_SInv (s : Sys) (l : Label) (s' : Sys) (o : List Seq)
+    (hinv : SInv s) (hstep : Sys.step handTable Cfg.fixed s l = some (s', o)) :
     SInv s' ∧ Seq.panic ∉ o := by
   cases l with
   | closeSig =>
@@ -345,8 +369,8 @@ theorem step_SInv (s : Sys) (l : Label) (hl : l.isRace = false) (s' : Sys) (o : 
         have := hs.2.2; simpa [pstep, isEof] using this
       simp only [hstop, Bool.false_eq_true, if_false, Option.some.injEq, Prod.mk.injEq] at hstep
       obtain ⟨rfl, rfl⟩ := hstep
-      refine ⟨fun _ => ⟨hs.1 rfl, fun ha => ?_⟩, hs.2.1⟩
-      simp only [startsTimer_hand, decide_eq_true_eq] at ha
+      refine ⟨fun _ => ⟨hs.1 rfl, fun ha => ?_, fun _ => rfl⟩, hs.2.1⟩
+      simp only [Sys.outdate, Bool.false_eq_true, or_false, startsTimer_hand, decide_eq_true_eq] at ha
       subst ha
       exact pstep_esc_state s.ps
     · cases hstep
@@ -370,62 +394,94 @@ theorem step_SInv (s : Sys) (l : Label) (hl : l.isRace = false) (s' : Sys) (o : 
       have hi := hinv (by rw [hc.2]; decide)
       simp only [Option.some.injEq, Prod.mk.injEq] at hstep
       obtain ⟨rfl, rfl⟩ := hstep
-      refine ⟨fun _ => ⟨?_, by simp⟩, by simp⟩
-      have hesc := hi.2 hc.1
-      have hex := ((invB_spec _).mp hi.1).1
-      simp only [α, hesc] at hex
-      simp only [timerReset, α, invB, if_true]
-      rw [hex]
-      decide
+      have hf := hi.2.2 hc.1
+      refine ⟨fun _ => ⟨timerReset_inv s.ps hi.1 (hi.2.1 (Or.inl hc.1)), ?_, by simp⟩, by simp⟩
+      simp [hf]
     · cases hstep
-  | raceFire r late => simp [Label.isRace] at hl
+  | timerExpire =>
+    simp only [Sys.step] at hstep
+    split at hstep
+    · rename_i hc
+      simp only [Option.some.injEq, Prod.mk.injEq] at hstep
+      obtain ⟨rfl, rfl⟩ := hstep
+      refine ⟨fun hnd => ?_, by simp⟩
+      have hi := hinv hnd
+      exact ⟨hi.1, fun _ => hi.2.1 (Or.inl hc), by simp⟩
+    · cases hstep
+  | cbRun fresh =>
+    cases fresh with
+    | true =>
+      simp only [Sys.step] at hstep
+      split at hstep
+      · rename_i hc
+        simp only [Option.some.injEq, Prod.mk.injEq] at hstep
+        obtain ⟨rfl, rfl⟩ := hstep
+        refine ⟨fun hnd => ?_, by simp [Cfg.fixed]⟩
+        have hi := hinv hnd
+        have ha : s.armed = false := by
+          cases h : s.armed with
+          | false => rfl
+          | true => have := hi.2.2 h; rw [hc] at this; cases this
+        exact ⟨timerReset_inv s.ps hi.1 (hi.2.1 (Or.inr hc)), by simp [ha], by simp⟩
+      · cases hstep
+    | false =>
+      simp only [Sys.step, Cfg.fixed, if_true] at hstep
+      split at hstep
+      · simp only [Option.some.injEq, Prod.mk.injEq] at hstep
+        obtain ⟨rfl, rfl⟩ := hstep
+        exact ⟨hinv, by simp⟩
+      · cases hstep
 
-theorem run_SInv (ls : List Label) (hl : ls.all (fun l => !l.isRace) = true) (s : Sys) (s' : Sys) (o : List Seq)
-    (hinv : SInv s) (hrun : Sys.run handTable true s ls = some (s', o)) : SInv s' ∧ Seq.panic ∉ o := by
+theorem run_SInv (ls : List Label) (s : Sys) (s' : Sys) (o : List Seq)
+    (hinv : SInv s) (hrun : Sys.run handTable Cfg.fixed s ls = some (s', o)) : SInv s' ∧ Seq.panic ∉ o := by
   induction ls generalizing s o with
   | nil =>
     simp only [Sys.run, Option.some.injEq, Prod.mk.injEq] at hrun
     obtain ⟨rfl, rfl⟩ := hrun
     exact ⟨hinv, by simp⟩
   | cons l ls ih =>
-    simp only [List.all_cons, Bool.and_eq_true, Bool.not_eq_true'] at hl
     simp only [Sys.run] at hrun
-    cases h1 : Sys.step handTable true s l with
+    cases h1 : Sys.step handTable Cfg.fixed s l with
     | none => simp [h1] at hrun
     | some r1 =>
       obtain ⟨s1, o1⟩ := r1
       simp only [h1] at hrun
-      cases h2 : Sys.run handTable true s1 ls with
+      cases h2 : Sys.run handTable Cfg.fixed s1 ls with
       | none => simp [h2] at hrun
       | some r2 =>
         obtain ⟨s2, o2⟩ := r2
         simp only [h2, Option.some.injEq, Prod.mk.injEq] at hrun
         obtain ⟨rfl, rfl⟩ := hrun
-        obtain ⟨g1, g2⟩ := step_SInv s l hl.1 s1 o1 hinv h1
-        obtain ⟨g3, g4⟩ := ih (by simpa using hl.2) s1 o2 g1 h2
+        obtain ⟨g1, g2⟩ := step_SInv s l s1 o1 hinv h1
+        obtain ⟨g3, g4⟩ := ih s1 o2 g1 h2
         exact ⟨g3, by simp [g2, g4]⟩
 
-/-- One race-free step emits the Escape key iff it is the timer firing (then exactly once). -/
-theorem step_esc_count (c : Bool) (s : Sys) (l : Label) (hl : l.isRace = false) (s' : Sys) (o : List Seq)
-    (hstep : Sys.step handTable c s l = some (s', o)) :
-    o.count (.c0 0x1B) = if l = .timerFire then 1 else 0 := by
+/-- A label that delivers the Escape key: the timer firing, or its (up-to-date) callback running. -/
+def Label.isEscKey : Label → Bool
+  | .timerFire | .cbRun true => true
+  | _ => false
+
+/-- One step emits the Escape key iff it is the timer firing / its up-to-date callback (then once). -/
+theorem step_esc_count (s : Sys) (l : Label) (s' : Sys) (o : List Seq)
+    (hstep : Sys.step handTable Cfg.fixed s l = some (s', o)) :
+    o.count (.c0 0x1B) = if Label.isEscKey l then 1 else 0 := by
   have hne : ∀ i, (VaxisModel.Model.Parser.step handTable s.ps i).out.count (.c0 0x1B) = 0 := fun i =>
     List.count_eq_zero.mpr (pstep_no_esc_key s.ps i)
   cases l with
   | closeSig =>
     simp only [Sys.step, Option.some.injEq, Prod.mk.injEq] at hstep
-    obtain ⟨_, rfl⟩ := hstep; simp
+    obtain ⟨_, rfl⟩ := hstep; simp [Label.isEscKey]
   | enterRead =>
     simp only [Sys.step] at hstep
     split at hstep
     · simp only [Option.some.injEq, Prod.mk.injEq] at hstep
-      obtain ⟨_, rfl⟩ := hstep; simp
+      obtain ⟨_, rfl⟩ := hstep; simp [Label.isEscKey]
     · cases hstep
   | breakClose =>
     simp only [Sys.step] at hstep
     split at hstep
     · simp only [Option.some.injEq, finishing, Prod.mk.injEq] at hstep
-      obtain ⟨_, rfl⟩ := hstep; simp
+      obtain ⟨_, rfl⟩ := hstep; simp [Label.isEscKey]
     · cases hstep
   | read r =>
     simp only [Sys.step] at hstep
@@ -433,50 +489,67 @@ theorem step_esc_count (c : Bool) (s : Sys) (l : Label) (hl : l.isRace = false) 
     · split at hstep
       · simp only [Option.some.injEq, finishing, Prod.mk.injEq] at hstep
         obtain ⟨_, rfl⟩ := hstep
-        simp [List.count_append, hne]
+        simp [List.count_append, hne, Label.isEscKey]
       · simp only [Option.some.injEq, Prod.mk.injEq] at hstep
         obtain ⟨_, rfl⟩ := hstep
-        simp [hne]
+        simp [hne, Label.isEscKey]
     · cases hstep
   | readEnd =>
     simp only [Sys.step] at hstep
     split at hstep
     · simp only [Option.some.injEq, finishing, Prod.mk.injEq] at hstep
       obtain ⟨_, rfl⟩ := hstep
-      simp [List.count_append, hne]
+      simp [List.count_append, hne, Label.isEscKey]
     · cases hstep
   | timerFire =>
     simp only [Sys.step] at hstep
     split at hstep
     · simp only [Option.some.injEq, Prod.mk.injEq] at hstep
-      obtain ⟨_, rfl⟩ := hstep; simp
+      obtain ⟨_, rfl⟩ := hstep; simp [Label.isEscKey]
     · cases hstep
-  | raceFire r late => simp [Label.isRace] at hl
+  | timerExpire =>
+    simp only [Sys.step] at hstep
+    split at hstep
+    · simp only [Option.some.injEq, Prod.mk.injEq] at hstep
+      obtain ⟨_, rfl⟩ := hstep; simp [Label.isEscKey]
+    · cases hstep
+  | cbRun fresh =>
+    cases fresh with
+    | true =>
+      simp only [Sys.step] at hstep
+      split at hstep
+      · simp only [Option.some.injEq, Prod.mk.injEq] at hstep
+        obtain ⟨_, rfl⟩ := hstep; simp [Label.isEscKey, Cfg.fixed]
+      · cases hstep
+    | false =>
+      simp only [Sys.step, Cfg.fixed, if_true] at hstep
+      split at hstep
+      · simp only [Option.some.injEq, Prod.mk.injEq] at hstep
+        obtain ⟨_, rfl⟩ := hstep; simp [Label.isEscKey]
+      · cases hstep
 
-theorem run_esc_count (c : Bool) (ls : List Label) (hl : ls.all (fun l => !l.isRace) = true) (s s' : Sys)
-    (o : List Seq) (hrun : Sys.run handTable c s ls = some (s', o)) :
-    o.count (.c0 0x1B) = ls.count .timerFire := by
+theorem run_esc_count (ls : List Label) (s s' : Sys) (o : List Seq)
+    (hrun : Sys.run handTable Cfg.fixed s ls = some (s', o)) :
+    o.count (.c0 0x1B) = (ls.filter Label.isEscKey).length := by
   induction ls generalizing s o with
   | nil =>
     simp only [Sys.run, Option.some.injEq, Prod.mk.injEq] at hrun
     obtain ⟨_, rfl⟩ := hrun; simp
   | cons l ls ih =>
-    simp only [List.all_cons, Bool.and_eq_true, Bool.not_eq_true'] at hl
     simp only [Sys.run] at hrun
-    cases h1 : Sys.step handTable c s l with
+    cases h1 : Sys.step handTable Cfg.fixed s l with
     | none => simp [h1] at hrun
     | some r1 =>
       obtain ⟨s1, o1⟩ := r1
       simp only [h1] at hrun
-      cases h2 : Sys.run handTable c s1 ls with
+      cases h2 : Sys.run handTable Cfg.fixed s1 ls with
       | none => simp [h2] at hrun
       | some r2 =>
         obtain ⟨s2, o2⟩ := r2
         simp only [h2, Option.some.injEq, Prod.mk.injEq] at hrun
         obtain ⟨rfl, rfl⟩ := hrun
-        rw [List.count_append, step_esc_count c s l hl.1 s1 o1 h1, ih (by simpa using hl.2) s1 o2 h2,
-          List.count_cons]
-        by_cases h : l = .timerFire <;> simp [h, Nat.add_comm]
+        rw [List.count_append, step_esc_count s l s1 o1 h1, ih s1 o2 h2, List.filter_cons]
+        by_cases h : Label.isEscKey l = true <;> simp [h, Nat.add_comm]
 
 /-! ### pools: the ownership invariant is preserved, writes never hit a delivered array -/
 
